@@ -46,6 +46,9 @@ type procCase struct {
 	Reps      int  `json:"reps"`
 	MaxProcs  int  `json:"maxprocs"`
 	PanicLast bool `json:"panic_last"` // the last submitted operation panics (documented: turned into an error result)
+	// StopFirst: Stop is called before the queue is closed (as concurrent.Map does), once every
+	// result has been taken; the workers still exit and the result channel is still closed
+	StopFirst bool `json:"stop_first,omitempty"`
 }
 
 type mapCall struct {
@@ -162,12 +165,22 @@ func runProc(c procCase) {
 				want[fmt.Sprintf("val:%d", i)]++
 			}
 		}
+		collected := make(chan struct{})
 		go func() {
 			if !c.CloseLate && c.Ops == 0 {
+				if c.StopFirst {
+					p.Stop()
+				}
 				p.Close()
 				return
 			}
 			p.Process(ops...)
+			if c.StopFirst {
+				// every result has been taken: asking the workers to stop now loses nothing, and the
+				// queue is closed afterwards as always
+				<-collected
+				p.Stop()
+			}
 			p.Close()
 		}()
 		got := map[string]int{}
@@ -184,6 +197,7 @@ func runProc(c procCase) {
 				}
 			}
 		})
+		close(collected)
 		if !ok {
 			childFail("results-missing", "rep %d: fewer than %d results within 20 s (got %v)", rep, c.Ops, got)
 		}
@@ -330,6 +344,7 @@ func TestProcessor(t *testing.T) {
 				c.ErrEvery = rapid.IntRange(1, 5).Draw(t, "err-every")
 			}
 			c.PanicLast = c.Ops > 0 && rapid.IntRange(0, 3).Draw(t, "panic-last") == 0
+			c.StopFirst = rapid.IntRange(0, 3).Draw(t, "stop-first") == 1
 			return c
 		},
 		Check: func(c procCase) *vlib.Failure { return runChild(childJob{Proc: &c}) },
@@ -346,6 +361,9 @@ func TestProcessor(t *testing.T) {
 			}
 			if c.PanicLast {
 				l = append(l, "last-operation-panics")
+			}
+			if c.StopFirst {
+				l = append(l, "stop-before-close")
 			}
 			return l
 		},
